@@ -606,8 +606,21 @@ impl Server {
         let mut connections_with_writes = Vec::new();
         let mut did_work = false;
         
+        // A blocked connection is not read from, so a client that went away while blocked
+        // would never be noticed: its registration would take the next element pushed to
+        // its key, and the element would be written to nobody.  Look for the hang-up; a
+        // closing connection is removed, and unregistered, by cleanup_connections
+        let all_ids = self.connections.all_connection_ids();
+        for &id in &all_ids {
+            self.connections.with_connection(id, |conn| {
+                if matches!(conn.state, ConnectionState::Blocked(_)) && conn.peer_has_closed() {
+                    conn.state = ConnectionState::Closing;
+                }
+            });
+        }
+        
         // Get all connection IDs, filtering out blocked connections for performance
-        let conn_ids: Vec<u64> = self.connections.all_connection_ids()
+        let conn_ids: Vec<u64> = all_ids
             .into_iter()
             .filter(|&id| !self.is_connection_blocked(id))
             .collect();
